@@ -36,6 +36,10 @@ def run_execution(harness, params, prefix):
     fp = getattr(harness, "fingerprint", None)
     s.lock_points = getattr(harness, "lock_points", True)
     s.free_cost = getattr(harness, "free_cost", 0)
+    s.fair_stay_cost = getattr(harness, "fair_stay_cost", 0)
+    pol = getattr(harness, "policy", None)
+    if pol is not None:
+        s.policy = pol(params)
     sched.ACTIVE = s
     if fp is not None:
         s.fingerprint = fp(params, s)
